@@ -333,10 +333,10 @@ BIND_UNUSED_IMPORT = {
 # provider expressions copied into the generated file carry package qualifiers: with two packages of the same name imported
 # by different files of the package, each qualifier must be rewritten to the name ITS package gets in the generated file
 VALUE_QUALIFIER = {
-    "staging/config/config.go": 'package config\n\nconst Region = "staging-local"\nconst Retries = 3\n',
+    "staging/config/config.go": 'package config\n\nconst Region = "staging-local"\nconst Retries = 3\n\ntype Creds struct{ K string }\n',
     "prod/config/config.go": 'package config\n\nconst Region = "eu-west-1"\nconst Retries = 9\n',
     "defaults.go": 'package main\n\nimport (\n\t"github.com/mazrean/kessoku"\n\t"vscratch/value_qualifier/prod/config"\n)\n\ntype Region string\n\nvar DefaultsSet = kessoku.Set(kessoku.Value(Region(config.Region)))\n',
-    "k.go": 'package main\n\nimport (\n\t"fmt"\n\n\t"github.com/mazrean/kessoku"\n\t"vscratch/value_qualifier/staging/config"\n)\n\ntype Retries int\ntype App struct{ S string }\n\nfunc NewApp(r Region, n Retries) *App { return &App{S: fmt.Sprintf("%s %d", r, n)} }\n\nvar _ = kessoku.Inject[*App]("InitApp", DefaultsSet, kessoku.Value(Retries(config.Retries)), kessoku.Provide(NewApp))\n\nfunc main() {\n\tif a := InitApp(); a.S != "eu-west-1 3" {\n\t\tpanic("wrong result " + a.S)\n\t}\n}\n',
+    "k.go": 'package main\n\nimport (\n\t"fmt"\n\n\t"github.com/mazrean/kessoku"\n\t"vscratch/value_qualifier/staging/config"\n)\n\ntype Retries int\ntype App struct{ S string }\n\nfunc NewApp(r Region, n Retries, c *config.Creds) *App { return &App{S: fmt.Sprintf("%s %d", r, n)} }\n\nvar _ = kessoku.Inject[*App]("InitApp", DefaultsSet, kessoku.Value(Retries(config.Retries)), kessoku.Provide(NewApp))\n\nfunc main() {\n\tif a := InitApp(nil); a.S != "eu-west-1 3" {\n\t\tpanic("wrong result " + a.S)\n\t}\n}\n',
 }
 
 
